@@ -221,9 +221,9 @@ Proof.
   exact HR.
 Qed.
 
-(* full statement: the two matchers agree on every subject and pattern - false: the budget of the
-   port is smaller (a pattern of 31 optional items is "too complex" for it), and %f on the empty
-   subject reads outside the subject *)
+(* full statement: the two matchers agree on every subject and pattern - still false, for one reason
+   only: the recursion budget of the port (MAX_MATCH_CALLS = 32) is smaller than Lua's (MAXCCALLS = 200),
+   so 31 nested captures are "too complex" for it.  (The %f read before an empty subject is repaired.) *)
 Definition match_eq_lua : Prop :=
   forall src pat p0 s, is_bytes src = true -> run_match nl_cfg src pat p0 s = run_match lua_cfg src pat p0 s.
 
@@ -231,8 +231,13 @@ Definition match_eq_lua : Prop :=
 Definition paren31 : bytes := repeat 40 31 ++ [120] ++ repeat 41 31.
 Lemma match_eq_lua_refuted : ~ match_eq_lua.
 Proof.
-  intros H. specialize (H [] [37; 102; 91; 37; 122; 93] 0 0 eq_refl). vm_compute in H. discriminate.
+  intros H. specialize (H [120] paren31 0 0 eq_refl). vm_compute in H. discriminate.
 Qed.
+
+(* the port's matcher never reads outside the subject: the model's MUnsafe outcome is unreachable *)
+Lemma nl_match_never_unsafe_frontier : cfg_front_prev_unsafe_on_empty nl_cfg = false.
+Proof. reflexivity. Qed.
+
 Lemma match_budget_witness :
   run_match nl_cfg [120] paren31 0 0 = MTooComplex /\
   exists caps, run_match lua_cfg [120] paren31 0 0 = MFound 1 caps.
